@@ -1,4 +1,5 @@
 import Polyseed.Model.Gf
+import Polyseed.Model.Spec
 import Polyseed.Lemmas.Bits
 /-!
 # GF(2048) algebra behind `gf.h`
@@ -9,14 +10,14 @@ evaluation is XOR-linear.
 -/
 namespace Polyseed
 
-/-- multiplication by `x` in GF(2)[x]/(x^11+x^2+1) on 11-bit vectors -/
-def mul2bv (x : BitVec 11) : BitVec 11 := (x <<< 1) ^^^ (if x.msb then 5#11 else 0#11)
+/-- multiplication by `x` in GF(2)[x]/(x^11+x^2+1) on 11-bit vectors (the specification's definition) -/
+abbrev mul2bv (x : BitVec 11) : BitVec 11 := Spec.mulX x
 
 theorem xor_cancel_right {n} (x y c : BitVec n) : x ^^^ c ^^^ (y ^^^ c) = x ^^^ y := by
   rw [BitVec.xor_assoc, BitVec.xor_comm y c, ← BitVec.xor_assoc c c y, BitVec.xor_self, BitVec.zero_xor]
 
 theorem mul2bv_xor (a b : BitVec 11) : mul2bv (a ^^^ b) = mul2bv a ^^^ mul2bv b := by
-  unfold mul2bv
+  unfold mul2bv Spec.mulX
   rw [BitVec.msb_xor, BitVec.shiftLeft_xor_distrib]
   cases a.msb <;> cases b.msb <;> simp
   · rw [BitVec.xor_assoc]
